@@ -226,10 +226,12 @@ Proof.
   - cbn. tauto.
 Qed.
 
+Lemma otlp_decode_some q b rows : otlp_decode q b = Some rows -> otlp_decode_core q b = Some rows /\ otlp_utf8_ok b = true.
+Proof. unfold otlp_decode. destruct (otlp_utf8_ok b); [intro H; split; [exact H|reflexivity]|discriminate]. Qed.
 Lemma otlp_decode_flat b :
-  otlp_decode fixed b = mapM (fun x => otlp_span fixed (fst x) (snd x)) (batch_spans b).
+  otlp_decode_core fixed b = mapM (fun x => otlp_span fixed (fst x) (snd x)) (batch_spans b).
 Proof.
-  unfold otlp_decode, batch_spans. induction b as [|r b IH]; [reflexivity|].
+  unfold otlp_decode_core, batch_spans. induction b as [|r b IH]; [reflexivity|].
   cbn [mapM flat_map]. rewrite mapM_app, mapM_map. cbn [fst snd].
   unfold otlp_res at 1. cbn [fixed q_nil_resource negb]. rewrite orb_true_r.
   destruct (mapM (otlp_span fixed (res_attrs r)) (List.concat (r_scopes r))) as [x|]; [|reflexivity].
@@ -239,7 +241,7 @@ Qed.
 Lemma otlp_rows b rows ps :
   otlp_decode fixed b = Some rows -> pushed_of (InOtlp b) = Some ps -> Forall2 span_rows_of ps rows.
 Proof.
-  cbn [pushed_of]. rewrite (otlp_decode_flat b). intros Hd Hp.
+  cbn [pushed_of]. intros Hd Hp. apply otlp_decode_some in Hd. destruct Hd as [Hd _]. rewrite (otlp_decode_flat b) in Hd.
   eapply (mapM_Forall2 _ _ span_rows_of); [|exact Hd|exact Hp].
   intros [ra s] sr p Hs Hpu. cbn [fst snd] in *. apply (otlp_span_pushed ra s sr p Hs Hpu).
 Qed.
@@ -925,7 +927,7 @@ Lemma otlp_read_back b rows ps :
   otlp_decode fixed b = Some rows -> pushed_of (InOtlp b) = Some ps -> otlp_times_ok b ->
   Forall2 (fun p sr => reads_back p (read_row fixed [] (fst sr))) ps rows.
 Proof.
-  cbn [pushed_of]. rewrite (otlp_decode_flat b). unfold otlp_times_ok. generalize (batch_spans b). intros l.
+  cbn [pushed_of]. intros Hd0. apply otlp_decode_some in Hd0. destruct Hd0 as [Hd0 _]. revert Hd0. rewrite (otlp_decode_flat b). unfold otlp_times_ok. generalize (batch_spans b). intros l.
   revert rows ps. induction l as [|[ra s] l IH]; intros rows ps Hd Hp Ht; cbn [mapM fst snd] in Hd, Hp.
   - inversion Hd; inversion Hp. constructor.
   - destruct (otlp_span fixed ra s) as [sr|] eqn:Es; [|discriminate].
@@ -1303,7 +1305,7 @@ Proof.
        exfalso. apply (accepted_denotes_l nd es rows Ed Hwf Ep). }
   destruct (forallb widths_ok ps); [|reflexivity].
   destruct inp as [b|nd es]; cbn [decode in_elems in_range] in *.
-  - cbn [pushed_of] in Ep. rewrite (otlp_decode_flat b) in Ed.
+  - cbn [pushed_of] in Ep. apply otlp_decode_some in Ed. destruct Ed as [Ed _]. rewrite (otlp_decode_flat b) in Ed.
     pose proof (otlp_checked_all b _ _ _ Hr Ed Ep) as F.
     assert (F1 : Forall2 (fun p sr => forall i, row_ok (InOtlp b) i p (fst sr) = true) ps rows)
       by (eapply Forall2_imp; [|exact F]; intros p sr H i; apply (H i)).
